@@ -379,7 +379,7 @@ fn gen_topk(rng: &mut Rng, tier: Tier, cases: &mut Vec<Case>) {
     };
     for i in 0..nrand {
         let n = rng.below(if i % 7 == 0 { 400 } else { 60 }) as usize;
-        let (lo, hi) = *rng.pick(&[(0i64, 3i64), (0, 20), (-50, 50), (i64::MIN / 2, i64::MAX / 2)]);
+        let (lo, hi) = *rng.pick(&[(0i64, 3i64), (0, 20), (-50, 50), (-(1i64 << 61), 1i64 << 61)]);
         let mut xs: Vec<i64> = (0..n).map(|_| rng.range(lo, hi)).collect();
         match rng.below(5) {
             0 => xs.sort(),
